@@ -933,7 +933,16 @@ def log_call(
         if include_args is not None:
             callargs = {k: callargs[k] for k in include_args}
 
-        with start_action(action_type=action_type, **callargs) as ctx:
+        # Like start_action(), but the arguments are passed as a dictionary so
+        # that parameters called e.g. "logger" can't be mistaken for
+        # start_action()'s own keyword arguments:
+        parent = current_action()
+        if parent is None:
+            action = Action(None, str(uuid4()), TaskLevel(level=[]), action_type)
+        else:
+            action = parent.child(None, action_type)
+        action._start(callargs)
+        with action as ctx:
             result = wrapped_function(*args, **kwargs)
             if include_result:
                 ctx.add_success_fields(result=result)
